@@ -824,7 +824,7 @@ func c15Run(t *testing.T, in c15Input) (rec Record, tr []c15Item, blog [][4]int,
 		}
 		ctx, cancel := context.WithCancel(context.Background())
 		defer cancel()
-		st, err := setec.NewStore(ctx, setec.StoreConfig{Client: svc, Secrets: declared, AllowLookup: in.Allow,
+		st, err := newStoreReleased(ctx, setec.StoreConfig{Client: svc, Secrets: declared, AllowLookup: in.Allow,
 			PollInterval: -1, Cache: h.cache, Logf: func(string, ...any) {}})
 		if err != nil {
 			panicked = "NewStore: " + err.Error()
